@@ -54,18 +54,31 @@ CONSTANTS
   RunAppCatchesBase = {RunAppCatchesBase}
   MaxStartFaults = {msf}
   Entries = {entries}
+  Tree = "{tree}"
+  KindsAllowed = {kinds}
 {invs}"""
 ALL_ENTRIES = ["Runner", "RunnerNoExplicitCleanup", "RunApp"]
 
 
+# application trees of AppLifecycle.tla (constant Tree): contexts per app, sub-apps per app (in add order)
+TREES: Dict[str, Dict[str, Any]] = {
+    "one": {"ctx": {"R": ["r1", "r2"], "S": ["s1", "s2"]}, "subs": {"R": ["S"]}},
+    "two": {"ctx": {"R": ["r1"], "S": ["s1"], "U": ["u1"]}, "subs": {"R": ["S", "U"]}},
+    "nested": {"ctx": {"R": ["r1"], "S": ["s1"], "U": ["u1"]}, "subs": {"R": ["S"], "S": ["U"]}},
+}
+BOTH_KINDS = ["exc", "base"]
+
+
 def a_cfg(name: str, devs: Dict[str, bool], msf: int, invs: List[str], spec: str = "Spec",
-          entries: Optional[List[str]] = None) -> str:
+          entries: Optional[List[str]] = None, tree: str = "one", kinds: Optional[List[str]] = None) -> str:
     d = mktemp("c20a")
     p = os.path.join(d, f"AppLifecycle_{name}.cfg")
     kw = {k: str(devs.get(k, True)).upper() for k in DEVS}
     with open(p, "w") as f:
         ents = "{" + ", ".join(f'"{e}"' for e in (entries or ALL_ENTRIES)) + "}"
-        f.write(A_CFG.format(spec=spec, msf=msf, entries=ents, invs="".join(f"INVARIANT {i}\n" for i in invs), **kw))
+        kds = "{" + ", ".join(f'"{k}"' for k in (kinds or BOTH_KINDS)) + "}"
+        f.write(A_CFG.format(spec=spec, msf=msf, entries=ents, tree=tree, kinds=kds,
+                             invs="".join(f"INVARIANT {i}\n" for i in invs), **kw))
     return p
 
 
@@ -73,8 +86,6 @@ class Boom(RuntimeError):
     pass
 
 
-ROOT_CTX = ("r1", "r2")
-SUB_CTX = ("s1", "s2")
 
 
 def build_app(init: dict, log: List[dict], kind: int, mode: str = "cancel", interrupt: Any = None) -> Any:
@@ -167,19 +178,22 @@ def build_app(init: dict, log: List[dict], kind: int, mode: str = "cancel", inte
                 fail_teardown("call_fail", name)
         return h
 
-    root, sub = web.Application(), web.Application()
-    for i, n in enumerate(ROOT_CTX):
-        root.cleanup_ctx.append(mkctx(n, (kind + i) % 3))
-    for i, n in enumerate(SUB_CTX):
-        sub.cleanup_ctx.append(mkctx(n, (kind + i + 1) % 3))
-    root.on_startup.append(handler("Rsu", fail_start))
-    root.on_shutdown.append(handler("Rsh", fail_shut))
-    root.on_cleanup.append(handler("Rcl", fail_clean))
-    sub.on_startup.append(handler("Ssu", fail_start))
-    sub.on_shutdown.append(handler("Ssh", fail_shut))
-    sub.on_cleanup.append(handler("Scl", fail_clean))
-    root.add_subapp("/sub", sub)
-    return root
+    tree = TREES[init.get("tree", "one")]
+    seq = [0]
+
+    def make(a: str) -> Any:
+        app = web.Application()
+        for n in tree["ctx"][a]:
+            app.cleanup_ctx.append(mkctx(n, (kind + seq[0]) % 3))
+            seq[0] += 1
+        app.on_startup.append(handler(a + "su", fail_start))
+        app.on_shutdown.append(handler(a + "sh", fail_shut))
+        app.on_cleanup.append(handler(a + "cl", fail_clean))
+        for sub in tree["subs"].get(a, []):          # a sub-app is complete (incl. its own sub-apps) when added
+            app.add_subapp("/" + sub.lower(), make(sub))
+        return app
+
+    return make("R")
 
 
 class LifeDriver:
@@ -213,7 +227,7 @@ class LifeDriver:
         cfg = {"entry": init["entry"], "failStart": sorted(init["failStart"]), "failShut": sorted(init["failShut"]),
                "failClean": sorted(init["failClean"]), "siteFails": bool(init["siteFails"]),
                "startKind": init.get("startKind", "exc"), "cleanKind": init.get("cleanKind", "exc")}
-        return {"cfg": cfg, "src": "tlc-init", "kind": kind, "with_site": bool(with_site), "mode": mode, "events": log}
+        return {"cfg": cfg, "src": "tlc-init", "tree": init.get("tree", "one"), "kind": kind, "with_site": bool(with_site), "mode": mode, "events": log}
 
     async def _runner(self, app: Any, init: dict, log: List[dict], with_site: bool) -> None:
         from aiohttp import web
@@ -281,8 +295,9 @@ class LifeDriver:
             asyncio.set_event_loop(None)
 
 
-def a_enumerate_inits(ctx: Ctx, msf: int) -> List[dict]:
-    cfg = a_cfg("inits", {k: False for k in DEVS}, msf, [], spec="SpecInitOnly")
+def a_enumerate_inits(ctx: Ctx, msf: int, tree: str = "one", entries: Optional[List[str]] = None,
+                      kinds: Optional[List[str]] = None) -> List[dict]:
+    cfg = a_cfg("inits", {k: False for k in DEVS}, msf, [], spec="SpecInitOnly", entries=entries, tree=tree, kinds=kinds)
     dot = os.path.join(mktemp("c20dot"), "inits.dot")
     res = run_tlc("AppLifecycle", cfg, workers=1, deadlock=False, dump_dot=dot, timeout=300)
     require_clean(res, "AppLifecycle initial states")
@@ -295,7 +310,7 @@ def a_enumerate_inits(ctx: Ctx, msf: int) -> List[dict]:
         out.append({"entry": str(st["entry"]), "failStart": sorted(map(str, st["failStart"])),
                     "failShut": sorted(map(str, st["failShut"])), "failClean": sorted(map(str, st["failClean"])),
                     "siteFails": bool(st["siteFails"]), "startKind": str(st["startKind"]),
-                    "cleanKind": str(st["cleanKind"])})
+                    "cleanKind": str(st["cleanKind"]), "tree": tree})
     out.sort(key=lambda d: json.dumps(d, sort_keys=True))
     if len(out) != res.distinct or not out:
         raise MachineryError(f"initial-state dump incomplete: {len(out)} parsed, TLC found {res.distinct}")
@@ -314,7 +329,7 @@ def a_describe(t: dict) -> str:
     c = t["cfg"]
     ent = [e["n"] for e in t["events"] if e["ev"] == "enter_done"]
     ext = [e["n"] for e in t["events"] if e["ev"] == "exit_begin"]
-    parts = [f"entry={c['entry']}"]
+    parts = [f"entry={c['entry']}"] + ([f"tree={t['tree']}"] if t.get("tree", "one") != "one" else [])
     for k in ("failStart", "failShut", "failClean"):
         if c[k]:
             parts.append(f"{k}={','.join(c[k])}")
@@ -329,8 +344,11 @@ def a_describe(t: dict) -> str:
 
 
 def a_validate(traces: List[dict]) -> tuple:
-    # spec/AppLifecycleTrace.cfg with the constants of CODE_AS_IS (identical unless a fix was declared)
-    cfg = a_cfg("trace", CODE_AS_IS, 1, [], spec="TSpec")
+    # spec/AppLifecycleTrace.cfg with the constants of CODE_AS_IS and the application tree of these traces
+    tree = traces[0].get("tree", "one")
+    if any(t.get("tree", "one") != tree for t in traces):
+        raise MachineryError("a_validate: one application tree per batch")
+    cfg = a_cfg("trace", CODE_AS_IS, 1, [], spec="TSpec", tree=tree)
     with open(cfg, "a") as f:
         f.write("POSTCONDITION PrintVerdicts\nCHECK_DEADLOCK FALSE\n")
     return validate_batch("AppLifecycleTrace", cfg, traces, timeout=900)
@@ -358,8 +376,11 @@ def a_judge(ctx: Ctx, traces: List[dict]) -> Dict[str, int]:
     counts: Dict[str, int] = {}
     groups: Dict[str, List[dict]] = {}
     notes: Dict[str, int] = {}
-    for k in range(0, len(traces), 8000):
-        chunk = traces[k:k + 8000]
+    chunks: List[List[dict]] = []
+    for tree in sorted({t.get("tree", "one") for t in traces}):
+        sel = [t for t in traces if t.get("tree", "one") == tree]
+        chunks += [sel[k:k + 8000] for k in range(0, len(sel), 8000)]
+    for chunk in chunks:
         verdicts, res = a_validate(chunk)
         ctx.add_trace_batch(len(chunk), res)
         for t, v in zip(chunk, verdicts):
@@ -393,44 +414,53 @@ def a_judge(ctx: Ctx, traces: List[dict]) -> Dict[str, int]:
 
 
 def run_part_a(ctx: Ctx) -> None:
-    msf = ctx.pick(1, 2)
     full = ["ExactlyOnceIffStarted", "NeverExitUnstarted", "ReverseOrder", "ErrorsSurface"]
-    # 1. the ideal design: every invariant, every fault mask x entry
     same = all(CODE_AS_IS.values())       # every deviation repaired: the code as it is equals the ideal design
-    if not same:
-        res = run_tlc("AppLifecycle", a_cfg("ideal", {}, msf, full), workers=16, timeout=ctx.pick(300, 1200))
-        ok = ctx.expect_model_ok(f"AppLifecycle[ideal](start faults<={msf}, 3 entries)", res)
-        ctx.log(f"A model[ideal]: {res.distinct} states ok={ok} {res.wall_s:.0f}s")
-    # 2. the code as it is: everything that goes wrong is one of the four named deviations
-    res = run_tlc("AppLifecycle", a_cfg("ascoded", CODE_AS_IS, msf,
-                                        (full if same else []) +
-                                        ["AsCodedExplained", "NeverExitUnstarted", "ReverseOrder", "ErrorsSurface"][0 if not same else 4:]),
-                  workers=16, timeout=ctx.pick(300, 1200), coverage=True)
-    ok = ctx.expect_model_ok(f"AppLifecycle[{'ideal = as-coded' if same else 'as-coded'}](start faults<={msf}, 3 entries)", res)
-    ctx.log(f"A model[{'ideal = as-coded' if same else 'as-coded'}]: {res.distinct} states ok={ok} {res.wall_s:.0f}s")
-    for act, (_d, tot) in sorted(res.coverage.items()):
-        if act in ("EntryPoint", "Propagate", "SignalSend", "CtxStartup", "CtxCleanup", "RunnerSetup", "RunnerCleanup"):
-            ctx.action_cover["A:" + act] = tot
-            if tot == 0:
-                ctx.notes.append(f"vacuity: action {act} never taken in AppLifecycle[as-coded]")
-    # 3. spec -> code -> spec: every initial state is replayed into the real application;
-    #    a named deviation that shows up is also exhibited by TLC in the model (a_model_counterexample)
-    inits = a_enumerate_inits(ctx, msf)
+    # (tree, entries, kinds of failure, max failing start-up steps)
+    plan = ctx.pick([("one", ALL_ENTRIES, BOTH_KINDS, 1), ("two", ["Runner"], ["exc"], 1), ("nested", ["Runner"], ["exc"], 1)],
+                    [("one", ALL_ENTRIES, BOTH_KINDS, 2), ("two", ALL_ENTRIES, BOTH_KINDS, 1),
+                     ("nested", ALL_ENTRIES, BOTH_KINDS, 1)])
     drv = LifeDriver()
     traces: List[dict] = []
+    ninit = 0
     try:
-        for i, init in enumerate(inits):
-            kinds = [i % 3] if ctx.quick else [0, 1, 2]
-            modes = ["cancel"] if init["startKind"] == "exc" else \
-                ([BASE_MODES[(i // 3) % 3]] if ctx.quick else BASE_MODES)
-            for kind in kinds:
-                for mode in modes:
-                    traces.append(drv.run(init, kind, with_site=(i + kind) % 2 == 0, mode=mode))
+        for tree, entries, kds, msf in plan:
+            tag = f"tree={tree}, start faults<={msf}, entries={'/'.join(entries)}, kinds={'/'.join(kds)}"
+            # 1. the ideal design: every invariant, every fault mask x entry
+            if not same:
+                res = run_tlc("AppLifecycle", a_cfg("ideal", {}, msf, full, entries=entries, tree=tree, kinds=kds),
+                              workers=16, timeout=ctx.pick(300, 1800))
+                ok = ctx.expect_model_ok(f"AppLifecycle[ideal]({tag})", res)
+                ctx.log(f"A model[ideal] {tag}: {res.distinct} states ok={ok} {res.wall_s:.0f}s")
+            # 2. the code as it is: everything that goes wrong is one of the named deviations
+            invs = full if same else ["AsCodedExplained", "NeverExitUnstarted", "ReverseOrder", "ErrorsSurface"]
+            label = "ideal = as-coded" if same else "as-coded"
+            res = run_tlc("AppLifecycle", a_cfg("ascoded", CODE_AS_IS, msf, invs, entries=entries, tree=tree, kinds=kds),
+                          workers=16, timeout=ctx.pick(300, 1800), coverage=True)
+            ok = ctx.expect_model_ok(f"AppLifecycle[{label}]({tag})", res)
+            ctx.log(f"A model[{label}] {tag}: {res.distinct} states ok={ok} {res.wall_s:.0f}s")
+            for act, (_d, tot) in sorted(res.coverage.items()):
+                if act in ("EntryPoint", "Propagate", "SignalSend", "CtxStartup", "CtxCleanup", "RunnerSetup",
+                           "RunnerCleanup"):
+                    ctx.action_cover["A:" + act] = ctx.action_cover.get("A:" + act, 0) + tot
+                    if tot == 0:
+                        ctx.notes.append(f"vacuity: action {act} never taken in AppLifecycle[{label}]({tag})")
+            # 3. spec -> code -> spec: every initial state is replayed into the real application;
+            #    a named deviation that shows up is also exhibited by TLC in the model (a_model_counterexample)
+            inits = a_enumerate_inits(ctx, msf, tree, entries, kds)
+            ninit += len(inits)
+            for i, init in enumerate(inits):
+                kinds = [i % 3] if ctx.quick else [0, 1, 2]
+                modes = ["cancel"] if init["startKind"] == "exc" else \
+                    ([BASE_MODES[(i // 3) % 3]] if ctx.quick else BASE_MODES)
+                for kind in kinds:
+                    for mode in modes:
+                        traces.append(drv.run(init, kind, with_site=(i + kind) % 2 == 0, mode=mode))
     finally:
         drv.close()
-    ctx.log(f"A replayed {len(inits)} initial states -> {len(traces)} executions of the real Application")
+    ctx.log(f"A replayed {ninit} initial states -> {len(traces)} executions of the real Application")
     counts = a_judge(ctx, traces)
-    ctx.extra["A_initial_states"] = len(inits)
+    ctx.extra["A_initial_states"] = ninit
     ctx.extra["A_executions"] = len(traces)
     ctx.extra["A_clause_counts"] = counts
     ctx.log(f"A verdicts: {counts or 'all accepted'}")
@@ -577,7 +607,7 @@ class ShutExec:
                     ws = ex.wss.get(c)
                     if ws is not None:
                         await ws.close(code=1001, message=b"shutdown")
-            ex.ev("on_shutdown_end")
+            ex.ev("on_shutdown_end", open=ex.open_conns())
 
         async def on_cleanup(app: Any) -> None:
             ex.ev("on_cleanup", open=ex.open_conns())
@@ -678,6 +708,8 @@ class ShutExec:
             self.feed(c, self.req(f"/h?c={c}&d={self.dstr(s.get('lateDur', 1))}"), True)
         elif s["kind"] == "partial":
             self.feed(c, self.req(f"/h?c={c}&d={self.dstr(s.get('lateDur', 1))}")[-9:], True)
+        elif s["kind"] in ("sleep", "stream"):      # another request on the same keep-alive connection
+            self.feed(c, self.req(f"/h?c={c}&d={self.dstr(s.get('lateDur', 1))}"), True)
 
     # ---- the scenario
     def run(self) -> dict:
@@ -779,7 +811,7 @@ B_CFG = """SPECIFICATION {spec}
 CONSTANTS
   Conns = {conns}
   T = 2
-  MaxD = 1
+  MaxD = 2
   WsT = 1
   Durs = {durs}
   Inf = 99
@@ -788,11 +820,12 @@ CONSTANTS
   CloseIdleAtOnce = {CloseIdleAtOnce}
   CancelLostConnHandler = {CancelLostConnHandler}
   PreShutdownCloses = {PreShutdownCloses}
+  PreShutdownMarksActive = {PreShutdownMarksActive}
   GraceWait = {GraceWait}
   SecondWait = {SecondWait}
 {invs}"""
-B_INVS = ["NoNewRequests", "IdleClosedAtOnce", "GraceRespected", "CancelledBy2T", "AllClosedAtReturn", "Terminates"]
-B_FLAGS = ["CloseIdleAtOnce", "CancelLostConnHandler", "PreShutdownCloses", "GraceWait", "SecondWait"]
+B_INVS = ["NoNewRequests", "ClosedOnCompletion", "IdleClosedAtOnce", "GraceRespected", "CancelledBy2T", "AllClosedAtReturn", "Terminates"]
+B_FLAGS = ["CloseIdleAtOnce", "CancelLostConnHandler", "PreShutdownCloses", "PreShutdownMarksActive", "GraceWait", "SecondWait"]
 B_DEVS = {"CloseIdleAtOnce": ("IdleClosedAtOnce", "IdleClosedByServerShutdown", "IdleOpenDuringOnShutdown"),
           "CancelLostConnHandler": ("CancelledBy2T", "CancelledBy2TExceptLost", "LostConnHandlerSurvivesShutdown")}
 B_ASCODED = {"CloseIdleAtOnce": "CloseIdleAtOnce" in _FIXED, "CancelLostConnHandler": "CancelLostConnHandler" in _FIXED}
@@ -849,7 +882,7 @@ def b_random_scenario(rng: Any) -> dict:
             s["rem"] = None if rng.random() < 0.25 else q(0, 3 * T + 2)
             s["stub"] = kind == "sleep" and s["rem"] is None and rng.random() < 0.5
             s["pipeline"] = rng.random() < 0.15
-        if kind in ("idle", "partial") and rng.random() < 0.7:
+        if (kind in ("idle", "partial") and rng.random() < 0.7) or (kind == "sleep" and rng.random() < 0.4):
             s["dAt"] = q(0, 2 * T + 2)
             s["lateDur"] = q(0, 2)
         if kind == "ws":
@@ -857,7 +890,7 @@ def b_random_scenario(rng: Any) -> dict:
         if rng.random() < 0.12:
             s["dropAt"] = q(0, 2 * T + 1)
         conns[f"c{i + 1}"] = s
-    return {"T": T, "D": rng.choice([0, 0, 0.5, 1, 2]), "appCloses": rng.random() < 0.6, "WsT": rng.choice([0.5, 1]),
+    return {"T": T, "D": rng.choice([0, 0, 0.5, 1, 2, 3]), "appCloses": rng.random() < 0.6, "WsT": rng.choice([0.5, 1]),
             "tail": rng.choice([0, 0, 1]), "t0": t0, "conns": conns, "src": "random"}
 
 
@@ -932,7 +965,7 @@ def run_part_b(ctx: Ctx) -> None:
     from engine import steploop
 
     _quiet_logs()
-    models = ctx.pick([(2, [1, 3, 99], [0, 1, 3])], [(2, [1, 2, 3, 4, 99], [0, 1, 3, 5]), (3, [1, 3, 99], [1])])
+    models = ctx.pick([(2, [1, 3, 99], [0, 2, 3])], [(2, [1, 2, 3, 4, 99], [0, 1, 2, 3, 5]), (3, [1, 3, 99], [2])])
     for nconn, durs, dts in models:
         tag = f"{nconn} conns, durs={durs}, deliveries at {dts}, T=2"
         same = all(B_ASCODED.values())     # both deviations repaired: as-coded = ideal, one run is enough
@@ -1161,12 +1194,13 @@ def selftest(ctx: Ctx) -> int:
     # ---- B (ii)
     print("B model mutants:")
     for flag, want in (("GraceWait", "GraceRespected"), ("SecondWait", "CancelledBy2T"),
-                       ("PreShutdownCloses", "NoNewRequests"), ("CloseIdleAtOnce", "IdleClosedAtOnce"),
+                       ("PreShutdownCloses", "NoNewRequests"), ("PreShutdownMarksActive", "NoNewRequests|ClosedOnCompletion"),
+                       ("CloseIdleAtOnce", "IdleClosedAtOnce"),
                        ("CancelLostConnHandler", "CancelledBy2T")):
-        res = run_tlc("ServerShutdown", b_cfg("mut_" + flag, 2, [1, 3, 99], [0, 1, 3], {flag: False}, B_INVS),
+        res = run_tlc("ServerShutdown", b_cfg("mut_" + flag, 2, [1, 3, 99], [0, 2, 3], {flag: False}, B_INVS),
                       workers=16, timeout=300)
         require_clean(res, "ServerShutdown mutant " + flag)
-        expect(f"{flag}=FALSE", res.violated, want)
+        expect(f"{flag}=FALSE", res.violated in want.split("|"), True)
     print("selftest", "passed" if ok else "FAILED")
     return 0 if ok else 2
 
@@ -1184,7 +1218,8 @@ def replay(ctx: Ctx, path: str) -> int:
     if d.get("part") == "A":
         drv = LifeDriver()
         try:
-            t = drv.run(tr["cfg"], int(tr.get("kind", 0)), bool(tr.get("with_site", True)), tr.get("mode", "cancel"))
+            t = drv.run(dict(tr["cfg"], tree=tr.get("tree", "one")), int(tr.get("kind", 0)),
+                        bool(tr.get("with_site", True)), tr.get("mode", "cancel"))
         finally:
             drv.close()
         vs, _ = a_validate([t])
